@@ -314,7 +314,7 @@ func cntSweepOp(a []string) string {
 		panic(badArg{})
 	}
 	var h uint64
-	mix := func(x uint64) { h = h*0x100000001b3 + x }
+	mix := func(x uint64) { h = (h ^ x) * 0x100000001b3 } // FNV-1a style step on 64-bit words
 	var c security.Count
 	p := rawCount(&c)
 	for v := lo; v < hi; v += stride {
